@@ -7,6 +7,34 @@ TECH = "Rocq/Coq 8.16 theorems on an executable Gallina model (Q / R) + translat
 
 # id -> (design_ref, level text, level_note)   -- only properties with a working check appear here
 CLAIMED = {
+    "C01": ("DESIGN.md 8/C01",
+            "Theorems (closed under the global context), for every list of hot/cold streams (lo<hi, CP>=0) on the rounding lattice and every "
+            "strictly descending grid containing their end points with gaps wider than the tol*10 activity window (extra rows from "
+            "utilities or insertions allowed): every row of the model cascade carries exactly the heat content of the streams above "
+            "it; Qh is the supremum over ALL temperatures of the exact net deficit and is attained; Qc = Qh - cold duty + hot duty; "
+            "Qr = hot duty - Qc; all three >= 0; they equal the grid-free reference maximum over the streams' own end points. "
+            "Tie: the model table is compared cell by cell inside coqc with create_problem_table_with_t_int+problem_table_algorithm "
+            "on both scales, and every '<zone>/Direct Integration' record of pinch_analysis_service is compared with the reference "
+            "computed in Coq from the INPUT numbers (through the verified Stream model).",
+            "Trusted: Coq kernel; hand-written model coq/model/Cascade.v validated by correspondence; constants (tol*10 window, 6-dp "
+            "rounding, latent width) regenerated from /repo; float rounding not proved (targets compared to 1e-6 of total duty); zone "
+            "membership of streams taken from the implementation (C10); Robust/lattice hypotheses of the theorems."),
+    "C05": ("DESIGN.md 8/C05",
+            "Theorems: on the model table, at every row, H_hot = exact heat of hot streams below T, H_cold = Qc + exact heat of cold "
+            "streams below T, H_net = H_cold - H_hot = Qh - net deficit above T >= 0 and touches 0; curves span exactly the stream "
+            "duties; heat above + heat below = duty at every temperature (both scales: the theorems are scale-agnostic). "
+            "Row-consistency (dT, CP*dT = dH, cumulative vs increment) and the real-table clauses are decided by predicates evaluated "
+            "in coqc on the implementation's own tables: stage tables cell-by-cell, get_process_heat_cascade (incl. rows inserted by "
+            "the constant-enthalpy projection) with 1e-9 slack, and both tables of every zone after the whole pipeline.",
+            "As C01; additionally end-to-end tables are observed after the pipeline's own 4-decimal rounding (slack 1e-4*(1+total CP))."),
+    "C06": ("DESIGN.md 8/C06",
+            "Theorems: for EVERY residual column with a zero that is not zero everywhere, pinch_idx returns a valid pair of zero rows "
+            "with row_h <= row_c, every zero outside them lies in a zero run touching that end, and on a threshold side the pinch row "
+            "is the process-side end of the run; a pinch is absent iff there is no zero or (finding D18) every row is zero; the table's "
+            "residual column equals Qh - exact net deficit on every row; a zero of the exact residual between two rows forces zeros "
+            "on both rows. Tie: pinch_idx compared on random columns (tolerance-edge values classified fragile), and every reported "
+            "temp_pinch is judged in coqc against the exact residual at the reported temperatures and at every stream/utility end point.",
+            "As C01; 'zero' on the implementation side means |exact residual| <= 2e-6 + 1e-9*scale; open finding D18 (all-zero residual)."),
     "C19": ("DESIGN.md 8/C19",
             "Theorems (closed under the global context): for every constructor argument tuple and every finite setter sequence the "
             "Stream model satisfies CP*span = duty, t_min < t_max, shifted bounds by kind, htr*htc = 1 and kind follows the "
